@@ -38,6 +38,8 @@ DESC = {
  "C17-b": ("dag ParseTransaction: multiple-signature branch dropped", "JSON-serialised transaction with a forged first signature and the victim's signature second"),
  "C18-a": ("didweb Resolve: id check compares Method and percent-decoded ID instead of Equals", "did:web with %3A port vs ':'"),
  "C18-b": ("resolver ChainedDIDResolver: continues on any functional resolve error, not only ErrNotFound", "locally managed did:web deactivated, then resolved"),
+ "C19-a": ("didnuts handleUpdateDIDDocument: resolve helper swallows ErrNotFound also in the latest-version fallback, returning (nil, nil) that is dereferenced", "update transaction for a DID whose create was never received"),
+ "C19-b": ("tree Iblt.Decode: visited-set loop guard removed", "peer IBLT crafted so that decoding cycles"),
  "C20-a": ("core loadFromFlagSet: flags.Visit with err overwritten by later flags", "secret flag followed by a later-sorting non-secret flag"),
  "C20-b": ("http configureClient: early return for ResponseCacheSize<=0 placed above client.StrictMode assignment", "http.cache.maxbytes=0 in strict mode"),
 }
